@@ -282,7 +282,7 @@ Ltac explode :=
   repeat bm; cbn [fst snd peers set_table set_peer nseq]; repeat bm.
 Ltac fields :=
   cbn [last_ts last_sent last_cons hs_seq hs_state with_responder_session with_initiator_session
-       set_staged with_initiation shift_peer restart_peer].
+       set_staged with_initiation shift_peer restart_peer remove_peer].
 
 (* lastTimestamp never decreases *)
 Lemma last_ts_mono st e p : last_ts (peers st p) <= last_ts (peers (fst (step st e)) p).
@@ -316,7 +316,7 @@ Proof.
     assert (Weak : Forall (fun t => last_ts (peers st p) < t)
                      (acc_ts p evs (outs step (fst (step st e)) evs))).
     { eapply Forall_impl; [|exact IHb]. cbn. intros. lia. }
-    destruct (e_body e) as [src m|q inner|q d| |on|q k] eqn:B; try (split; assumption).
+    destruct (e_body e) as [src m|q inner|q d| |on|q|q k] eqn:B; try (split; assumption).
     destruct (m_kind m) eqn:K; [|split; assumption].
     destruct (existsb is_resp (snd (step st e))) eqn:NE; cbn [andb]; [|split; assumption].
     destruct (m_static m =? p) eqn:Ep; [|split; assumption].
